@@ -42,8 +42,15 @@ theorem each_exit_clears_processing (s : St) (op : Op) (id : Nat) (r : Resp)
         simp_all [stepOut, St.io, St.txnFail, St.fault, St.state, St.close] <;>
         (split <;> simp_all)
     | timeoutHere c =>
-      cases tdl <;> cases c <;> cases so <;>
+      cases tdl <;> cases c <;> cases so <;> cases ph <;>
         simp_all [stepOut, St.timeoutHere, St.txnTimeout, St.fault, St.state, St.close] <;>
+        (split <;> simp_all)
+    | timeoutBlock =>
+      cases tdl <;> cases so <;> cases ph <;>
+        simp_all [stepOut, St.timeoutBlock, St.txnTimeoutStart]
+    | reconn c =>
+      cases c <;> cases ph <;>
+        simp_all [stepOut, St.reconnDone, St.fault, St.state, St.close] <;>
         (split <;> simp_all)
     | close => simp_all [stepOut]
     | look => simp_all [stepOut]
@@ -52,7 +59,7 @@ theorem each_exit_clears_processing (s : St) (op : Op) (id : Nat) (r : Resp)
     | req i dl =>
       simp only [isReq, Option.some.injEq] at hreq; subst hreq
       cases dl <;> cases so <;>
-        simp_all [stepOut, St.request, St.txnTimeout, St.txnFail, St.fault, St.state, St.close] <;>
+        simp_all [stepOut, St.request, St.txnTimeout, St.txnTimeoutStart, St.txnFail, St.fault, St.state, St.close] <;>
         (repeat' split) <;> simp_all
     | _ => simp [isReq] at hreq
 
@@ -77,6 +84,7 @@ theorem fault_once (s : St) (op : Op) (hinv : Inv s) (hf : connFailure s op = tr
       cases dl with
       | none => simp [connFailure] at hf
       | future => simp [connFailure] at hf
+      | pastBlock => simp [connFailure] at hf
       | past c =>
         cases c <;> cases so <;> cases cs <;>
           simp_all [connFailure, stepOut, St.request, St.txnTimeout, St.fault, St.state, St.close, isReq,
@@ -85,15 +93,25 @@ theorem fault_once (s : St) (op : Op) (hinv : Inv s) (hf : connFailure s op = tr
     cases proc with
     | none => cases o <;> simp [connFailure] at hf
     | some t =>
-      cases o <;> cases so <;> cases cs <;>
+      obtain ⟨tid, tdl, ph⟩ := t
+      cases o <;> cases ph <;> cases so <;> cases cs <;>
         simp_all [connFailure, stepOut, St.io, St.txnFail, St.fault, St.state, St.close, isReq, Resp.isError]
   | timeoutHere c =>
     cases proc with
     | none => cases c <;> simp [connFailure] at hf
     | some t =>
       obtain ⟨tid, tdl, ph⟩ := t
-      cases c <;> cases tdl <;> cases so <;> cases cs <;>
+      cases c <;> cases tdl <;> cases ph <;> cases so <;> cases cs <;>
         simp_all [connFailure, stepOut, St.timeoutHere, St.txnTimeout, St.fault, St.state, St.close, isReq,
+          Resp.isError]
+  | timeoutBlock => simp [connFailure] at hf
+  | reconn c =>
+    cases proc with
+    | none => cases c <;> simp [connFailure] at hf
+    | some t =>
+      obtain ⟨tid, tdl, ph⟩ := t
+      cases c <;> cases ph <;> cases so <;> cases cs <;>
+        simp_all [connFailure, stepOut, St.reconnDone, St.fault, St.state, St.close, isReq,
           Resp.isError]
   | close => simp [connFailure] at hf
   | look => simp [connFailure] at hf
@@ -119,6 +137,7 @@ theorem closed_and_signalled (s : St) (op : Op) (hinv : Inv s)
       cases dl with
       | none => simp [connFailure] at hf
       | future => simp [connFailure] at hf
+      | pastBlock => simp [connFailure] at hf
       | past c =>
         cases c <;> cases so <;> cases cs <;>
           simp_all [connFailure, stepOut, St.request, St.txnTimeout, St.fault, St.state, St.close]
@@ -126,15 +145,24 @@ theorem closed_and_signalled (s : St) (op : Op) (hinv : Inv s)
     cases proc with
     | none => cases o <;> simp [connFailure] at hf
     | some t =>
-      cases o <;> cases so <;> cases cs <;>
+      obtain ⟨tid, tdl, ph⟩ := t
+      cases o <;> cases ph <;> cases so <;> cases cs <;>
         simp_all [connFailure, stepOut, St.io, St.txnFail, St.fault, St.state, St.close]
   | timeoutHere c =>
     cases proc with
     | none => cases c <;> simp [connFailure] at hf
     | some t =>
       obtain ⟨tid, tdl, ph⟩ := t
-      cases c <;> cases tdl <;> cases so <;> cases cs <;>
+      cases c <;> cases tdl <;> cases ph <;> cases so <;> cases cs <;>
         simp_all [connFailure, stepOut, St.timeoutHere, St.txnTimeout, St.fault, St.state, St.close]
+  | timeoutBlock => simp [connFailure] at hf
+  | reconn c =>
+    cases proc with
+    | none => cases c <;> simp [connFailure] at hf
+    | some t =>
+      obtain ⟨tid, tdl, ph⟩ := t
+      cases c <;> cases ph <;> cases so <;> cases cs <;>
+        simp_all [connFailure, stepOut, St.reconnDone, St.fault, St.state, St.close]
   | close => simp [connFailure] at hf
   | look => simp [connFailure] at hf
 
@@ -144,7 +172,7 @@ theorem closed_and_signalled (s : St) (op : Op) (hinv : Inv s)
     reached the peer (true after the repair of F4: before it a refused re-connect left the
     transport `open` with `_processing` set for ever). -/
 theorem open_idle_carries (s : St) (id : Nat) (dl : DL) (hinv : Inv s)
-    (hopen : s.state = .opened) (hidle : s.processing = none) (hdl : ∀ c, dl ≠ .past c) :
+    (hopen : s.state = .opened) (hidle : s.processing = none) (hdl : dl = .none ∨ dl = .future) :
     (s.request id dl).2.eff.dels = [] ∧
     (∃ b, (s.request id dl).1.processing = some ⟨id, b, .write⟩) ∧
     (s.request id dl).1.state = .opened ∧
@@ -152,10 +180,117 @@ theorem open_idle_carries (s : St) (id : Nat) (dl : DL) (hinv : Inv s)
   obtain ⟨cs, so, ores, proc⟩ := s
   simp only [Inv] at hinv
   simp only at hidle; subst hidle
-  cases dl with
-  | past c => exact absurd rfl (hdl c)
-  | none => cases so <;> cases cs <;> simp_all [St.request, St.state, St.io]
-  | future => cases so <;> cases cs <;> simp_all [St.request, St.state, St.io]
+  rcases hdl with rfl | rfl <;> cases so <;> cases cs <;> simp_all [St.request, St.state, St.io]
+
+/-! ### the re-connect of the time-out handler as a yield point -/
+
+/-- a transport that reports `open` with no transaction in flight has a connected socket: the
+    state "`_state` Open, no socket handle" only exists while `_processing` is set -/
+theorem open_idle_connected (s : St) (hinv : Inv s) (hopen : s.state = .opened)
+    (hidle : s.processing = none) : s.sockOpen = true := by
+  obtain ⟨cs, so, ores, proc⟩ := s
+  simp only [Inv] at hinv
+  simp only at hidle; subst hidle
+  cases so <;> cases cs <;> simp_all [St.state]
+
+/-- in every reachable state — whatever the operations, also between the two halves of a
+    re-connect that takes time — a transport that reports `open` with no transaction in flight
+    carries the next request -/
+theorem reachable_open_idle_carries (ops : List Op) (id : Nat) (dl : DL)
+    (hopen : (runOps St.init ops).state = .opened) (hidle : (runOps St.init ops).processing = none)
+    (hdl : dl = .none ∨ dl = .future) :
+    (runOps St.init ops).sockOpen = true ∧
+    ((runOps St.init ops).request id dl).2.eff.dels = [] ∧
+    (∃ b, ((runOps St.init ops).request id dl).1.processing = some ⟨id, b, .write⟩) ∧
+    (((runOps St.init ops).request id dl).1.io .ok).2.sent = [id] := by
+  have hinv := inv_reachable ops
+  obtain ⟨h1, h2, _, h4⟩ := open_idle_carries _ id dl hinv hopen hidle hdl
+  exact ⟨open_idle_connected _ hinv hopen hidle, h1, h2, h4⟩
+
+/-- the deadline of the transaction in flight passes and the re-connect takes time: the
+    operation hands out nothing, raises nothing, the transaction stays in flight (`_processing`
+    set) blocked in the re-connect; the transport still reports `open`, its socket is not
+    connected -/
+theorem timeout_block_defers (s : St) (t : Txn) (hinv : Inv s) (hp : s.processing = some t)
+    (hd : t.hasDl = true) (hph : t.phase ≠ .reconn) :
+    (s.timeoutBlock).2 = {} ∧
+    (s.timeoutBlock).1.processing = some { t with phase := .reconn } ∧
+    (s.timeoutBlock).1.state = .opened ∧ (s.timeoutBlock).1.sockOpen = false := by
+  obtain ⟨cs, so, ores, proc⟩ := s
+  simp only [Inv] at hinv
+  simp only at hp; subst hp
+  obtain ⟨tid, tdl, ph⟩ := t
+  simp only at hd hph; subst hd
+  cases ph <;> cases so <;> cases cs <;>
+    simp_all [St.timeoutBlock, St.txnTimeoutStart, St.state]
+
+/-- **the window.**  While the time-out handler of transaction `t` is blocked in its re-connect
+    the transport reports `open` but is *not idle* (`_processing` is set), and
+    * whatever else is attempted changes nothing: a request is rejected with the concurrency
+      error (it is never started on the socket that is not there), `Open()`, an I/O outcome or a
+      second time-out find nothing to do;
+    * when the re-connect is accepted the transaction is handed its one TimeoutError, nothing
+      is raised, `_processing` is clear and the socket is connected: the transport is `open`,
+      idle and carries the next request;
+    * when it is refused the transaction is handed its one TimeoutError, the fault signal is
+      raised once, the transport reports `closed` and `_processing` is clear;
+    * `Close()` leaves a closed transport with nothing in flight. -/
+theorem reconnect_window (s : St) (t : Txn) (hinv : Inv s) (hp : s.processing = some t)
+    (hph : t.phase = .reconn) :
+    (s.state = .opened ∧ s.sockOpen = false) ∧
+    (∀ id dl, s.request id dl = (s, { eff := { dels := [(id, .conc)] } })) ∧
+    (∀ r, s.openT r = (s, {})) ∧ (∀ o, s.io o = (s, {})) ∧ (∀ r, s.timeoutHere r = (s, {})) ∧
+    s.timeoutBlock = (s, {}) ∧
+    ((s.reconnDone .ok).2 = { eff := { faults := 0, dels := [(t.id, .timeout)], conns := 1 } } ∧
+      (s.reconnDone .ok).1.state = .opened ∧ (s.reconnDone .ok).1.processing = none ∧
+      (s.reconnDone .ok).1.sockOpen = true ∧
+      ∀ id dl, dl = .none ∨ dl = .future →
+        ((s.reconnDone .ok).1.request id dl).2.eff.dels = [] ∧
+        ((((s.reconnDone .ok).1.request id dl).1.io .ok).2.sent = [id])) ∧
+    ((s.reconnDone .refuse).2 = { eff := { faults := 1, dels := [(t.id, .timeout)], conns := 1 } } ∧
+      (s.reconnDone .refuse).1.state = .closed ∧ (s.reconnDone .refuse).1.processing = none) ∧
+    (s.close.state = .closed ∧ s.close.processing = none) := by
+  obtain ⟨cs, so, ores, proc⟩ := s
+  simp only [Inv] at hinv
+  simp only at hp; subst hp
+  obtain ⟨tid, tdl, ph⟩ := t
+  simp only at hph; subst hph
+  cases so <;> cases cs <;> simp_all [St.state]
+  refine ⟨?_, ?_, ?_, ?_, ?_, ?_, ?_, ?_⟩
+  · intro id dl; simp [St.request]
+  · intro r; simp [St.openT]
+  · intro o; simp [St.io]
+  · intro r; simp [St.timeoutHere]
+  · simp [St.timeoutBlock]
+  · refine ⟨by simp [St.reconnDone], by simp [St.reconnDone], by simp [St.reconnDone], by simp [St.reconnDone], ?_⟩
+    intro id
+    simp [St.reconnDone, St.request, St.io]
+  · simp [St.reconnDone, St.fault, St.state, St.close]
+  · simp [St.close]
+
+theorem trace_obs_reachable : ∀ (ops : List Op) (s : St), Inv s →
+    ∀ p ∈ comp.trace () s ops, ∃ s' o, Inv s' ∧ p.2 = obsOf s' o := by
+  intro ops
+  induction ops with
+  | nil => intro s _ p hp; simp [TComp.trace] at hp
+  | cons op ops ih =>
+    intro s hinv p hp
+    simp only [TComp.trace, comp, step, List.mem_cons] at hp
+    rcases hp with rfl | hp
+    · exact ⟨_, _, inv_step s op hinv, rfl⟩
+    · exact ih _ (inv_step s op hinv) p hp
+
+/-- **every observation of every history**: whenever the transport reports `open` and not busy
+    (`_processing` clear) its socket is connected — also in the observations taken while a
+    re-connect is in progress (there it reports busy) -/
+theorem observed_open_idle_connected (ops : List Op) :
+    ∀ p ∈ comp.modelTrace () ops, p.2.state = .opened → p.2.busy = false → p.2.sock = true := by
+  intro p hp hst hb
+  obtain ⟨s', o, hinv, he⟩ := trace_obs_reachable ops St.init inv_init p hp
+  rw [he] at hst hb ⊢
+  simp only [obsOf] at hst hb ⊢
+  apply open_idle_connected s' hinv hst
+  cases h : s'.processing <;> simp_all
 
 /-- **C08, serial transport, specification level.**  For every operation list satisfying the
     hypotheses, the history of the model satisfies the executable specification that the
